@@ -504,7 +504,7 @@ func (b *concBuilder) build(st *State, cv *CV) Value {
 			fmt.Sscanf(s, "(_ BitVec %d)", &w)
 			return Scalar{Term{fmt.Sprintf("(_ bv%d %d)", cv.Int, w), s}}
 		}
-		return Scalar{x.decls.Const(fmt.Sprintf("lit_%s_%d", s, cv.Int), s)}
+		return Scalar{x.decls.Const("lit_"+s+"_"+sanitize(fmt.Sprint(cv.Int)), s)}
 	case "bool":
 		return Scalar{BoolLit(cv.Bool)}
 	case "slice":
